@@ -322,6 +322,33 @@ def install(models):
             raise Panic("slice index starts after end")
         return StrSlice(sl.s, j1, j2)
 
+    @R(r"^core::str::<impl str>::get::<(std::ops::)?Range(From|To)?<usize>>$")
+    def _str_get(ex, c, a):
+        sl = as_slice(a[0])
+        r = a[1]
+        try:
+            if "RangeFrom" in c:
+                j = char_index(ex, sl, r[0] if isinstance(r, list) else r, "s.get(a..)")
+                return opt(StrSlice(sl.s, j, sl.hi))
+            if "RangeTo" in c:
+                j = char_index(ex, sl, r[0] if isinstance(r, list) else r, "s.get(..b)")
+                return opt(StrSlice(sl.s, sl.lo, j))
+            j1 = char_index(ex, sl, r[0], "s.get(a..b)")
+            j2 = char_index(ex, sl, r[1], "s.get(a..b)")
+            if j2 < j1:
+                return opt(None)
+            return opt(StrSlice(sl.s, j1, j2))
+        except Panic:
+            return opt(None)
+
+    @R(r"^Option::<&str>::and_then::<|^Option::<&str>::map::<")
+    def _opt_str_and_then(ex, c, a):
+        o = a[0]
+        if o.idx == 0:
+            return o
+        r = ex.call_closure(a[1], [o.fields[0]])
+        return r if "and_then" in c else opt(r)
+
     @R(r"^<str as PartialEq>::eq$|^<&str as PartialEq>::eq$|^<str as PartialEq<str>>::eq$|^<&str as PartialEq<&str>>::eq$")
     def _str_eq(ex, c, a):
         x, y = as_slice(a[0]), as_slice(a[1])
